@@ -455,6 +455,7 @@ func (d *Data) storeBlocks(ctx *datastore.VersionedCtx, r io.ReadCloser, scale u
 	}
 
 	callback := func(bcoord dvid.IZYXString, block *labels.Block, ready chan error) {
+		defer putWG.Done() // also when the store refused the write: the request waits on this group
 		if ready != nil {
 			if resperr := <-ready; resperr != nil {
 				dvid.Errorf("Unable to PUT voxel data for block %v: %v\n", bcoord, resperr)
@@ -479,8 +480,6 @@ func (d *Data) storeBlocks(ctx *datastore.VersionedCtx, r io.ReadCloser, scale u
 				}
 			}
 		}
-
-		putWG.Done()
 	}
 
 	if d.Compression().Format() != dvid.Gzip {
